@@ -1,0 +1,17 @@
+//go:build verif
+
+package routing
+
+// Contracts for the govc verifier (/verif). This file contains comments only;
+// it does not change the compiled package.
+//
+// The scheduler reads everything it needs to know about a request from the
+// action its router returns (do_not_cache decides whether the request may be
+// merged with an identical one in flight, C03; the workers execute it). A
+// router that asks a remote service hands on exactly the action that service
+// returned, with nothing dropped or rebuilt on the way, and analyses the size
+// class of that same action.
+//@ func (*remoteActionRouter).RouteAction
+//@   props C03
+//@   at call Analyze#1 assert the-size-class-is-analysed-for-the-routed-action: arg3 == response.Action
+//@   ensures the-routed-action-is-the-one-the-routing-service-returned: r4 == nil ==> r0 == response.Action
